@@ -1,7 +1,19 @@
-"""U8: the embedder-facing scheduler (Runtime::run_n_steps and everything below it except
-step()) on the REAL text of vm.rs, driven over a contract-only nondeterministic step()
-(Kani, bounded: <= 3 queued threads at entry, budget <= 4, <= 1 spawn per run).
-Serves C11 (truthful status / budget / top) and the scheduler half of C10."""
+"""U8: the embedder-facing scheduler (Runtime::{new, run_n_steps, run_threads_round_robin,
+finish_thread_turn, drain_new_threads, update_status_helper, try_get_main, main, top} and
+VmGreenThread::{run_n_steps, validate, can_run, status}) on the REAL text of vm.rs, driven
+over a contract-only nondeterministic step() (harness.rs `u8_step`).
+Serves C11 (truthful status / budget / top) and the scheduler half of C10.
+
+Back ends (both execute harness.rs):
+  * native-exhaustive: vm.rs compiled natively on the real std, every resolution of the
+    harness's nondeterminism executed (native_kani.rs) - all obligations; bounds: <= 3 queued
+    threads at entry, budget <= 4 (5 thorough), <= 1 SpawnTask per run (2 thorough).
+  * kani/cbmc through vmk.run_table: the loop-free calls only.  MEASURED: with
+    Box<VmGreenThread> inside a queue CBMC needs 26 s / 40 s / 70 s for 1 / 2 / 3 unrolled
+    iterations of the scheduler loop over a ONE-thread queue and > 19 GB for the smallest
+    symbolic-state loop harness; the recursive drop glue Box<thread> -> Sender -> queue of
+    Box<thread> and the String/Vec loops of VmError at every drop site had to be cut first.
+"""
 import os
 import re
 from units import vmk
@@ -160,6 +172,9 @@ BN = ("exhaustive explicit-state execution of the natively compiled real schedul
 BK = "Kani/CBMC, run_queue length <= %d at entry (all flag combinations of RI, all u16 ids / Values symbolic); loop-free call"
 
 
+HEAVY = ("host_call_3", "top_3")  # > 10^8 executions at the thorough bounds: kept at the quick bounds
+
+
 def _hl(prefix, lo, hi):
     return ["%s_%d" % (prefix, n) for n in range(lo, hi + 1)]
 
@@ -170,10 +185,10 @@ NT = [
          text="run_n_steps(k).steps_consumed <= k and == number of step() calls actually made (ghost counter), on every scheduling path; "
               "no step() on a thread that is pending/errored/done"),
     dict(id="C11.status.done_iff_main_done", props=P11, fn="Runtime::run_n_steps / finish_thread_turn / update_status_helper",
-         h=_hl("done_iff", 0, 3) + _hl("repeat", 1, 3),
+         h=_hl("done_iff", 0, 3) + _hl("repeat_done", 1, 3),
          text="kind == Done <=> the main thread has executed Stop (now or in an earlier call), whatever the other threads do; the stopped "
               "main thread is kept as finished_main_thread and leaves the queue; once Done, every further call reports Done"),
-    dict(id="C11.status.error_never_done", props=P11, fn="Runtime::update_status_helper / VmGreenThread::status", h=_hl("err", 0, 3) + _hl("repeat", 1, 3),
+    dict(id="C11.status.error_never_done", props=P11, fn="Runtime::update_status_helper / VmGreenThread::status", h=_hl("err", 0, 3) + _hl("repeat_err", 1, 3),
          text="main.error.is_some() => MainThreadError carrying that error's kind (never Done / OutOfSteps / PendingHostFunc), and it stays "
               "reported on further calls; MainThreadError only if the main thread has an error"),
     dict(id="C11.status.pending_host", props=P11 + ["C10"], fn="Runtime::update_status_helper / VmGreenThread::status", h=_hl("pending", 0, 3),
@@ -192,7 +207,7 @@ NT = [
               "iter_threads_mut + clear_pending_host_func it runs again within one round"),
     dict(id="C11.sched.no_starvation_accounting", props=P11 + ["C10"], fn="Runtime::run_threads_round_robin (skipped_threads)", h=_hl("starve", 0, 3),
          text="the loop terminates; budget is left over only if Done or no queued thread can run; OutOfSteps => steps_consumed == k"),
-    dict(id="C11.validate.no_panic", props=P11, fn="VmGreenThread::validate / Runtime::main", h=_hl("nopanic", 0, 3) + _hl("repeat", 1, 3),
+    dict(id="C11.validate.no_panic", props=P11, fn="VmGreenThread::validate / Runtime::main", h=_hl("nopanic", 0, 3) + _hl("repeat_nopanic", 1, 3),
          text="run_n_steps (also called repeatedly without servicing anything) never reaches the panics of validate() and main() never "
               "unwraps None, from every RI state; overflow checks on"),
     dict(id="C11.sched.invariant", props=P11 + ["C10"], fn="Runtime::new / run_n_steps", h=_hl("inv", 0, 3) + ["ri_init"],
@@ -271,12 +286,19 @@ def _native_obligations(tier, sc, want):
         for h in r['h']:
             if h not in names:
                 names.append(h)
-    os.environ["U8_MAXK"], os.environ["U8_SPAWNS"] = str(maxk), str(spawns)
-    try:
-        res, rc, err = run_native(sc, names, timeout=1500 if tier == "thorough" else 600)
-    finally:
-        os.environ.pop("U8_MAXK", None)
-        os.environ.pop("U8_SPAWNS", None)
+    heavy = [h for h in names if h in HEAVY] if tier == "thorough" else []
+    res, rc, err = {}, 0, ""
+    for group, (mk, sp) in (([h for h in names if h not in heavy], (maxk, spawns)), (heavy, (4, 1))):
+        if not group:
+            continue
+        os.environ["U8_MAXK"], os.environ["U8_SPAWNS"] = str(mk), str(sp)
+        try:
+            r1, rc1, err1 = run_native(sc, group, timeout=1800 if tier == "thorough" else 600)
+        finally:
+            os.environ.pop("U8_MAXK", None)
+            os.environ.pop("U8_SPAWNS", None)
+        res.update(r1)
+        rc, err = rc or rc1, err + err1
     sha = S.sha(S.item(V, r'impl Runtime \{') + S.method(V, r'impl VmGreenThread \{', 'run_n_steps') + S.method(V, r'impl VmGreenThread \{', 'validate')
                 + S.method(V, r'impl VmGreenThread \{', 'can_run') + S.method(V, r'impl VmGreenThread \{', 'status'))
     obs, notes = [], {}
@@ -298,8 +320,11 @@ def _native_obligations(tier, sc, want):
             elif not any(hits > 0 for p in parts for _, hits in p['covers']):
                 st, detail = E.UNDECIDED, "vacuity guard: no cover statement reached"
         notes[r['id']] = dict(executions=runs, covers={h: p['covers'] for h, p in zip(r['h'], parts) if p})
+        bound = BN % (maxk, spawns)
+        if any(h in heavy for h in r['h']):
+            bound += "; the 3-thread case of this obligation with budget <= 4 and <= 1 spawn"
         obs.append(E.Obligation(r['id'], r['props'], UNIT, r['fn'], "native-exhaustive", st, detail, t, V, sha,
-                                BN % (maxk, spawns), r['text'], cex=cex))
+                                bound, r['text'], cex=cex))
     return obs, notes
 
 
@@ -356,6 +381,44 @@ CANNED = {
 }
 
 
+EMBED_CARGO = """[package]
+name = "u8embed"
+version = "0.1.0"
+edition = "2024"
+[dependencies]
+abra_core = { path = "%s/abra_core" }
+[workspace]
+"""
+
+
+def run_embedder(timeout=1500):
+    """Build units/u8_sched/embed_main.rs against the REAL abra_core crate of the current tree (real step()) and run it:
+    5 task-free programs x 13 budget sequences x 3 service delays must agree on output / status / error / total
+    steps_consumed / top(); steps_consumed <= k on every call.  -> dict or None"""
+    import json
+    import subprocess
+    sc = E.Scratch("u8e")
+    try:
+        os.makedirs(os.path.join(sc.path, "src"))
+        with open(os.path.join(sc.path, "Cargo.toml"), "w") as f:
+            f.write(EMBED_CARGO % E.REPO)
+        for dst, src in (("src/main.rs", "embed_main.rs"), ("src/hostgen.rs", "embed_hostgen.rs")):
+            with open(os.path.join(sc.path, dst), "w") as f:
+                f.write(open(os.path.join(HERE, src)).read())
+        env = dict(os.environ, CARGO_NET_OFFLINE="true", CARGO_TARGET_DIR=os.path.join(sc.path, "target"))
+        b = subprocess.run(["timeout", str(timeout), "cargo", "build", "--offline", "--quiet"], cwd=sc.path, env=env, capture_output=True, text=True)
+        if b.returncode != 0:
+            return dict(error="embedder does not build: " + b.stderr[-800:])
+        r = subprocess.run(["timeout", "300", os.path.join(sc.path, "target", "debug", "u8embed")], capture_output=True, text=True)
+        out = dict(stdout=r.stdout[-2500:], exit_code=r.returncode)
+        m = re.search(r'^RESULT (\{.*\})$', r.stdout, re.M)
+        if m:
+            out.update(json.loads(m.group(1)))
+        return out
+    finally:
+        sc.cleanup()
+
+
 def replay(ob):
     """native obligations: the counterexample IS a concrete execution of the natively compiled real scheduler; re-run it.
     status obligations additionally get the real CLI's view of a main-thread error."""
@@ -373,6 +436,13 @@ def replay(ob):
                 extra['native_rerun'] = dict(failures=r['failures'][:2], runs=r['runs'])
         finally:
             sc.cleanup()
+    if ob.status != E.DISCHARGED and ob.id in ("C11.run_n_steps.budget", "C10.sched.single_thread.split", "C11.status.done_iff_main_done",
+                                               "C11.top.is_final_value", "C11.status.error_never_done"):
+        # differential run on the real crate (real step()); can only strengthen a confirmation, never refute one
+        r = run_embedder()
+        extra['real_crate_embedder'] = r
+        if r and (r.get('mismatches', 0) > 0 or r.get('exit_code', 0) not in (0, None)):
+            confirmed = True
     if ob.id.startswith("C11.status.error"):
         out, err, rc = abra_cli.run_program(CANNED["main_error_reported"], timeout=20)
         extra['cli_main_error'] = dict(stdout=out[:200], stderr=err[:300], exit_code=rc)
